@@ -102,6 +102,10 @@ def known_functions():
     return _KNOWN
 
 
+LOOP_ITERS: Dict[str, Any] = {}
+_LOOP_KEYS = itertools.count(1)
+
+
 class Interp:
     """Interpret one function body into terms + events."""
     _depth_glob = 0
@@ -436,6 +440,12 @@ class Interp:
             if nm in self.env:
                 self.env[nm] = ("mu", lid, nm, self.env[nm])
         lv = ("loopvar", lid, ast.unparse(s.target))
+        if not (it[0] == "call" and it[1] == "builtins.range"):
+            # the variable takes the ELEMENTS of a container (neighbour ids, frames, (index, item) pairs ...): a data read, not a
+            # counter - marked so that comparisons never treat it as a pure index
+            key_ = f"data#{next(_LOOP_KEYS)}"
+            LOOP_ITERS[key_] = it        # looked up by the comparison rules; kept out of the term so that rewrites never touch it
+            lv = lv + (key_,)
         self.loops[lid].target = lv
         self._loopstack.append(lid)
         ev0 = len(self.events)
@@ -519,9 +529,9 @@ class Interp:
                 if v[0] in ("tuple", "list") and len(v[1]) == n:
                     self.assign(e, v[1][k], stmt)
                 elif v[0] == "loopvar" and v[2].startswith(("(", "[")) is False and "," in v[2]:
-                    self.assign(e, ("elem", v, k), stmt)
+                    self.assign(e, self._elem(v, k), stmt)
                 else:
-                    self.assign(e, ("elem", v, k), stmt)
+                    self.assign(e, self._elem(v, k), stmt)
             return
         tt = self.target_term(tgt)
         # X[s] = X[s] + v  is the same update as  X[s] += v : recorded in the augmented form
@@ -650,9 +660,21 @@ class Interp:
     def e_Subscript(self, n: ast.Subscript) -> Term:
         return self.mk_sub(self.expr(n.value), self.index(n.slice))
 
+    def _elem(self, v: Term, k: int) -> Term:
+        """component k of an unpacked value; a prefix of a shape tuple unpacks to the extents themselves"""
+        if v[0] == "sub" and v[1][0] == "attr" and v[1][2] == "shape" and v[2][0] == "slice":
+            r = self.mk_sub(v, C(k))
+            if r != ("sub", v, C(k)):
+                return r
+        return ("elem", v, k)
+
     def mk_sub(self, base: Term, idx: Term) -> Term:
         if base in self._dirty:
             return ("sub", base, idx)
+        if is_const(idx) and isinstance(idx[1], int) and not isinstance(idx[1], bool) and idx[1] >= 0 and base[0] == "sub" and base[2][0] == "slice" \
+                and base[2][1] in (NONE, C(0)) and base[2][3] == NONE and is_const(base[2][2]) and isinstance(base[2][2][1], int) and 0 <= idx[1] < base[2][2][1] \
+                and base[1][0] == "attr" and base[1][2] == "shape":
+            return ("sub", base[1], idx)        # x.shape[:k][i] is x.shape[i] (i < k)
         if is_const(idx):
             k = idx[1]
             if base[0] in ("tuple", "list") and isinstance(k, int) and not isinstance(k, bool) and -len(base[1]) <= k < len(base[1]):
